@@ -75,6 +75,13 @@ def main():
     ns={}; exec(open(sys.argv[1]).read(),ns)
     tkz=splice(tkz,ns['TOKENIZER'])
     tok=splice(tok,ns.get('TOKEN',{}))
-    out=ns['PRELUDE']+tok+ns.get('GHOST','')+tkz+'\n} } // verus!\nfn main(){}\n'
+    pars=''
+    if 'PARSER' in ns:
+        p=drop_display(strip_tests_uses(open(REPO+'parser.rs').read()))
+        i=p.index("impl<'a> ExprAST<'a> {\n    pub fn exec"); j=p.index("pub struct Parser<'a>")
+        p=p[:i]+p[j:]
+        p=p.replace("#[derive(Clone, PartialEq, Eq, Debug)]\npub enum","#[verifier::external_derive]\n#[derive(Clone, PartialEq, Eq, Debug)]\npub enum")
+        pars=splice(p,ns['PARSER'])
+    out=ns['PRELUDE']+tok+ns.get('GHOST','')+tkz+ns.get('GHOST2','')+pars+'\n} } // verus!\nfn main(){}\n'
     open(sys.argv[2],'w').write(out)
 main()
